@@ -443,6 +443,22 @@ impl<'a> VisitMut for Rw<'a> {
         visit_mut::visit_block_mut(self, b);
     }
 
+    fn visit_expr_struct_mut(&mut self, st: &mut ExprStruct) {
+        let mut keep = punctuated::Punctuated::new();
+        for fv in std::mem::take(&mut st.fields).into_iter() {
+            match attrs_enabled(&fv.attrs, self.feats) {
+                Ok(true) => keep.push(fv),
+                Ok(false) => self.bump("A0.cfg_off"),
+                Err(e) => {
+                    self.fail(e);
+                    keep.push(fv)
+                }
+            }
+        }
+        st.fields = keep;
+        visit_mut::visit_expr_struct_mut(self, st);
+    }
+
     fn visit_expr_match_mut(&mut self, m: &mut ExprMatch) {
         let mut arms = Vec::new();
         for a in std::mem::take(&mut m.arms) {
@@ -462,6 +478,21 @@ impl<'a> VisitMut for Rw<'a> {
     fn visit_expr_mut(&mut self, e: &mut Expr) {
         // children first (inner chains inside closures get lowered first)
         visit_mut::visit_expr_mut(self, e);
+        if self.enabled("R5") {
+            if let Expr::MethodCall(mc) = e {
+                if mc.method == "extend" && mc.args.len() == 1 && mc.turbofish.is_none() {
+                    if let Expr::Path(_) = &mc.args[0] {
+                        let t = self.fresh("t");
+                        let recv = &mc.receiver;
+                        let arg = &mc.args[0];
+                        let ne: Expr = parse_quote!({ let mut #t = #arg; #recv.append(&mut #t); });
+                        *e = ne;
+                        self.bump("R5.extend");
+                        return;
+                    }
+                }
+            }
+        }
         if self.enabled("R1") {
             if let Some(n) = self.lower_sink(e) {
                 *e = n;
@@ -582,6 +613,7 @@ impl VisitMut for Replacer {
 // markers
 // ---------------------------------------------------------------------------------------------
 struct Marker {
+    do_loops: bool,
     next_loop: u32,
     kinds: Vec<String>,
     anchors: Vec<Anchor>,
@@ -659,6 +691,9 @@ impl VisitMut for Marker {
         b.stmts = out;
     }
     fn visit_expr_mut(&mut self, e: &mut Expr) {
+        if !self.do_loops {
+            return visit_mut::visit_expr_mut(self, e);
+        }
         match e {
             Expr::While(w) => {
                 self.visit_expr_mut(&mut w.cond);
@@ -872,6 +907,9 @@ fn do_fn(items: &[Item], req: &ItemReq, feats: &[String]) -> std::result::Result
     let mut block = found.block.clone();
     let mut counts: BTreeMap<String, u32> = BTreeMap::new();
 
+    // anchors are matched against the ORIGINAL statements (before any rewrite)
+    let mut am = Marker { do_loops: false, next_loop: 0, kinds: vec![], anchors: req.anchors.clone(), found: BTreeMap::new() };
+    am.visit_block_mut(&mut block);
     // pinned replacements first (they are matched against the original token text)
     let mut rp = Replacer {
         stmt: req.replace_stmt.iter().cloned().map(|r| (r, 0)).collect(),
@@ -910,11 +948,11 @@ fn do_fn(items: &[Item], req: &ItemReq, feats: &[String]) -> std::result::Result
         return Err(e);
     }
 
-    let mut mk = Marker { next_loop: 0, kinds: vec![], anchors: req.anchors.clone(), found: BTreeMap::new() };
+    let mut mk = Marker { do_loops: true, next_loop: 0, kinds: vec![], anchors: vec![], found: BTreeMap::new() };
     mk.visit_block_mut(&mut block);
     let mut missing = Vec::new();
     for a in &req.anchors {
-        let c = mk.found.get(&a.id).copied().unwrap_or(0);
+        let c = am.found.get(&a.id).copied().unwrap_or(0);
         if c <= a.nth.unwrap_or(0) || (a.nth.is_none() && c != 1) {
             missing.push(a.id);
         }
